@@ -350,6 +350,7 @@ class SymInterp(Interp):
         self.values = {}               # canonical text -> Rat: every scalar bound to a local somewhere in the interpreted code
         self.bound_names = {}          # canonical text -> name of a local it was bound to (for messages only)
         self.bound_nodes = {}          # canonical text -> statement that bound it (for locations only)
+        self.vectors = {}              # canonical text -> (name, Arr, statement): every numeric vector of three scalars bound to a local
         self.atom_nodes = {}           # registered atom -> statement being interpreted when it was created (for locations only)
         self._cur = None
         self.stack = []                # qualified names of the repository functions being interpreted (innermost last)
@@ -1131,6 +1132,12 @@ class SymInterp(Interp):
         elif isinstance(v, Arr):
             for x in v.data:
                 self.note_value(name, x)
+            if v.shape == (3,) and not v.isbool and all(isinstance(x, Dual) and rat_is_zero(x.b) for x in v.data):
+                self.vectors.setdefault(self._vkey(v), (name, v, self._cur))
+            elif v.shape == (3, 3) and not v.isbool and all(isinstance(x, Dual) and rat_is_zero(x.b) for x in v.data):
+                for i in range(3):
+                    r = Arr(list(v.data[3 * i:3 * i + 3]), (3,))
+                    self.vectors.setdefault(self._vkey(r), (f"{name}[{i}]", r, self._cur))
         return v
 
     def assign(self, t, v, env):
